@@ -77,13 +77,15 @@ class Repo:
         self.script = []
         self.ngit = 0
         self.subdir = subdir  # project root below the repository root (cwd of the CLI runs), or None
+        self.extra_env = None  # e.g. GIT_INDEX_FILE while an alternate index is inspected
         # fixed dates: a replayed script reproduces the same commit ids
         sb.env["GIT_AUTHOR_DATE"] = sb.env["GIT_COMMITTER_DATE"] = "2024-01-01T00:00:00Z"
 
     # -- raw helpers
     def git(self, *args, ok_fail=False, inp=None):
         self.ngit += 1
-        p = subprocess.run(["git", *args], cwd=self.root, env=self.sb.env, input=inp,
+        env = dict(self.sb.env, **self.extra_env) if self.extra_env else self.sb.env
+        p = subprocess.run(["git", *args], cwd=self.root, env=env, input=inp,
                            stdout=subprocess.PIPE, stderr=subprocess.PIPE, timeout=60)
         if p.returncode != 0 and not ok_fail:
             raise CheckBroken("git %s failed: %s" % (" ".join(args), p.stderr.decode("utf-8", "replace")[:400]))
@@ -118,6 +120,17 @@ class Repo:
             os.symlink(op[2], p)
         elif k == "mkdir":
             os.makedirs(self.abs(op[1]), exist_ok=True)
+        elif k == "worktree":
+            # ["worktree", <dir name>, <start point>, <new branch or None>]: a LINKED work tree next to the
+            # project directory with its own HEAD and index (git worktree add); when git creates it, every
+            # later operation, the CLI runs, the library calls and the git oracle happen in there
+            path = os.path.join(self.sb.base, op[1])
+            args = ["worktree", "add", "-q"] + (["-b", op[3]] if op[3] else ["--detach"]) + [path, op[2]]
+            rc, _ = self.git(*args, ok_fail=True)
+            if rc == 0:
+                self.main_root = self.root
+                self.root = path
+            return rc
         elif k == "git":
             self.git(*op[1:])
         elif k == "git?":
@@ -155,7 +168,7 @@ class Repo:
                     dirs.append(p)
             for x in fs:
                 p = os.path.join(rel, x)
-                if p == CFG_NAME or p.endswith("/" + CFG_NAME):
+                if p == CFG_NAME or p.endswith("/" + CFG_NAME) or p == ".git":     # .git is a file in a linked work tree
                     continue
                 (links if os.path.islink(self.abs(p)) else files).append(p)
         return sorted(files), sorted(links), sorted(dirs)
@@ -484,6 +497,37 @@ def build_history(rng, repo, hist, commits_target):
                 # leave a clean tree behind
                 repo.do(["git", "reset", "-q", "--hard"])
             hist["merge"] = hist.get("merge", 0) + 1
+    head_shapes(rng, repo, pool, hist, branches, ntag)
+
+
+def commit_round(rng, repo, pool, hist, msg):
+    for _ in range(rng.choice([1, 1, 2])):
+        mutate_worktree(rng, repo, pool, hist)
+    repo.do(["git", "add", "-A"])
+    repo.do(["git", "commit", "-q", "--allow-empty", "-m", msg])
+
+
+def head_shapes(rng, repo, pool, hist, branches, ntag):
+    """Where HEAD and the index live at the end of a history: on a branch of the main work tree (most
+    often), DETACHED at some commit (rebase stop, bisect, CI checkout of a commit id), or in a LINKED work
+    tree (git worktree add) that has its own HEAD - on a new branch or detached - and its own index,
+    usually some commits ahead of or behind the main work tree."""
+    r = rng.random()
+    if r < 0.13:
+        cands = ["HEAD", "HEAD~1", "HEAD~2", "HEAD~1"] + branches + ["v%d" % k for k in range(1, ntag + 1)]
+        if repo.do(["git?", "checkout", "-q", "--detach", rng.choice(cands)]) == 0:
+            hist["detached-head"] = hist.get("detached-head", 0) + 1
+            if rng.random() < 0.35:
+                commit_round(rng, repo, pool, hist, "on detached HEAD")
+                hist["detached-head+commit"] = hist.get("detached-head+commit", 0) + 1
+    elif r < 0.27:
+        start = rng.choice(["HEAD", "HEAD", "HEAD~1", "HEAD~2"] + branches)
+        br = "wt1" if rng.random() < 0.65 else None
+        if repo.do(["worktree", "linked", start, br]) == 0:
+            hist["linked-worktree" + ("" if br else "-detached")] = hist.get("linked-worktree" + ("" if br else "-detached"), 0) + 1
+            for k in range(rng.choice([0, 1, 1, 2])):
+                commit_round(rng, repo, pool, hist, "linked %d" % k)
+                hist["linked-worktree-commit"] = hist.get("linked-worktree-commit", 0) + 1
 
 
 def index_state(rng, repo, hist):
